@@ -210,7 +210,7 @@ reg(Prop("C11", "inputs are not consumed by a run",
 
 reg(Prop("C14", "no look-ahead: past outputs do not depend on future weather",
     [("clock", 120, 1200), ("inputs", 2000, 20000), ("day", 2000, 30000), ("runc", 36, 400)],
-    worker_mon("C14", monitors2.worker_C14, 30, 500, timeout=900),
+    worker_mon("C14", monitors2.worker_C14, 30, 500, timeout=1500, payload=lambda c, i: {"cfg": c, "long_extension": i % 5 == 1}),
     ["all theorems 'Closed under the global context'; Clock.v theorems hold for every physics",
      "that one day's processes read only that day's weather record is the typing of Clock.proc (one W argument) tied by the Day.v replay (weather_step fields) and the clock suite; "
      "that the reset reads the weather only for thermal-time crops is the regenerated fact reset_weather_guard_ok (C08.v)"],
@@ -218,13 +218,25 @@ reg(Prop("C14", "no look-ahead: past outputs do not depend on future weather",
     "monitor: pairs of runs with weather perturbed from a random day t on (temperature, rain, ET0), weather perturbed/clipped outside the window, extended end dates; bitwise on rows before t / completed seasons",
     replay=lambda d: _base.replay_worker(monitors2.worker_C14, d)))
 
+def _c15_monitor(ctx):
+    n = 26 if ctx["tier"] == "quick" else 340
+    cfgs = _base.draw_configs("C15", n)
+    # directed part: thermal-time crops with the documented alternative degree-day methods, simulation starting on the planting date (the
+    # calendar of the first season is then the one computed at initialisation from the weather TABLE)
+    gdd = [c for c in sim.CROPS if sim.crop_params[c].get("CalendarType") == 2 and c not in sim.YLDWC0]
+    cfgs += _base.draw_configs("C15gdd", 6 if ctx["tier"] == "quick" else 60, crop=lambda r: r.choice(gdd), crop_kwargs=lambda r: {"GDDmethod": r.choice([1, 2])},
+                               start_mode="at", end_mode="after")
+    return _base.run_monitor(monitors2.worker_C15, [{"cfg": c} for c in cfgs], timeout=900)
+_c15_monitor.worker = monitors2.worker_C15; _c15_monitor.payload = None
+
+
 reg(Prop("C15", "weather is bound by date and by column name",
     [("inputs", 6000, 40000), ("initialise", 64, 800)],
-    worker_mon("C15", monitors2.worker_C15, 30, 400, timeout=900),
+    _c15_monitor,
     ["all theorems 'Closed under the global context' and hold for every number type",
      "modelled: read_weather_inputs.py, the weather-matrix construction in core._initialize, the per-step lookup (Init/Inputs.v); pandas column selection / boolean row filtering are list functions tied by the inputs suite (all 120 column permutations, extra columns, 5 index kinds, leading/trailing rows)"],
     ["bind_by_date needs one record per day, sorted, covering the window (what prepare_weather produces); for tables with gaps the code uses the rows positionally (bind_positional, Example bind_gap_wrong_day)"],
-    "monitor: bitwise outputs of full runs fed with transformed but equivalent tables (permuted / extra columns, re-indexed, string index, rows dropped outside the window, combinations) + row k carries date start+k with that date's values",
+    "monitor: bitwise outputs of full runs fed with transformed but equivalent tables (permuted / extra columns, look-alike extra columns (SoilTemp, MeanTemp, Precip_qc, Date_obs ...) with gaps, re-indexed, string index, rows dropped outside the window, combinations; a directed share of thermal-time crops with degree-day methods 1/2 started on the planting date) + row k carries date start+k with that date's values",
     replay=lambda d: _base.replay_worker(monitors2.worker_C15, d)))
 
 
